@@ -202,3 +202,129 @@ Qed.
 
 Lemma inv_init : Inv (init_state VM) (fun _ => None).
 Proof. constructor; cbn; intros; try discriminate; auto. Qed.
+
+(** ---- restarts ----
+    A restart forgets the records; Init rebuilds one for every address of the peer list, which
+    contains every address with a last sent cheque (repo commit 0d61be5), with a sent-cheque
+    total that is at least that cheque (restore = max(chain, cheque)).  *)
+Definition W (v : vstate) (m : lastmap) : Prop :=
+  (forall a, get a (d_last_send (dk v)) = m a) /\
+  (forall a t y, get a (recs v) = Some t -> m a = Some y -> (y <= f_rcheque t)%Z).
+Definition has_rec (v : vstate) (a : addr) : Prop := get a (recs v) <> None.
+
+Lemma Inv_W v m : Inv v m -> W v m.
+Proof. intros [I1 I2 I3]. split; auto. Qed.
+
+Lemma chain_update_frame v a tr :
+  let v2 := chain_update VM v a tr in
+  d_last_send (dk v2) = d_last_send (dk v) /\
+  (forall a', a' <> a -> get a' (recs v2) = get a' (recs v)) /\ has_rec v2 a.
+Proof.
+  cbn zeta. unfold chain_update. destruct (get_traffic VM v a) as [t v1] eqn:E.
+  destruct (get_traffic_V _ _ _ _ E) as (G1 & G2 & _ & _ & _ & _ & _ & _ & Ed).
+  destruct (fst tr), (snd tr); cbn [alloc VM dk recs d_last_send]; rewrite Ed;
+    (split; [reflexivity|]); (split; [intros a' Hne; rewrite get_set_other by auto; apply G2; auto|]);
+    unfold has_rec; cbn [recs]; rewrite get_set_same; discriminate.
+Qed.
+
+Lemma cheque_update_frame v a :
+  has_rec v a ->
+  let v3 := cheque_update VM v a in
+  d_last_send (dk v3) = d_last_send (dk v) /\
+  (forall a', a' <> a -> get a' (recs v3) = get a' (recs v)) /\
+  exists t3, get a (recs v3) = Some t3 /\ forall y, get a (d_last_send (dk v)) = Some y -> (y <= f_rcheque t3)%Z.
+Proof.
+  intros Hr. cbn zeta. unfold cheque_update, get_traffic. unfold has_rec in Hr.
+  destruct (get a (recs v)) as [t|] eqn:G; [|congruence].
+  destruct (get a (d_last_send (dk v))) as [x|] eqn:Gx, (get a (d_last_recv (dk v))) as [z|];
+    cbn [alloc VM dk recs]; (split; [reflexivity|]);
+    (split; [intros a' Hne; now rewrite get_set_other by auto|]);
+    eexists; rewrite get_set_same; (split; [reflexivity|]); cbn [f_rcheque]; intros y Ey; inversion Ey; subst;
+    match goal with |- (_ <= max_loc VM ?u ?p ?q)%Z => pose proof (max_loc_ge u p q); lia end.
+Qed.
+
+Lemma init_one_W v m a tr :
+  W v m -> let v' := cheque_update VM (chain_update VM v a tr) a in
+  W v' m /\ has_rec v' a /\ (forall a', has_rec v a' -> has_rec v' a').
+Proof.
+  intros [W1 W2]. cbn zeta.
+  destruct (chain_update_frame v a tr) as (D2 & O2 & R2). cbn zeta in *.
+  remember (chain_update VM v a tr) as v2 eqn:E2. clear E2.
+  destruct (cheque_update_frame v2 a R2) as (D3 & O3 & t3 & G3 & C3). cbn zeta in *.
+  remember (cheque_update VM v2 a) as v3 eqn:E3. clear E3.
+  split; [split|split].
+  - intros a'. rewrite D3, D2. apply W1.
+  - intros a' t y G My. destruct (N.eq_dec a' a) as [->|Hne].
+    + rewrite G3 in G. inversion G; subst. apply C3. rewrite D2, W1. exact My.
+    + rewrite O3, O2 in G by auto. eauto.
+  - unfold has_rec. rewrite G3. discriminate.
+  - intros a' Hr. unfold has_rec in *. destruct (N.eq_dec a' a) as [->|Hne]; [rewrite G3; discriminate|].
+    now rewrite O3, O2 by auto.
+Qed.
+
+Lemma init_fold_W cv m l : forall v, W v m ->
+  let v' := fold_left (fun (s : state VM) a => cheque_update VM (chain_update VM s a (trans_of cv a)) a) l v in
+  W v' m /\ (forall a, In a l -> has_rec v' a) /\ (forall a, has_rec v a -> has_rec v' a).
+Proof.
+  induction l as [|a l IH]; intros v Hw; cbn [fold_left].
+  - split; [exact Hw|]. split; [intros a []|auto].
+  - destruct (init_one_W v m a (trans_of cv a) Hw) as (W1 & R1 & M1). cbn zeta in *.
+    destruct (IH _ W1) as (W2 & R2 & M2). cbn zeta in *. split; [exact W2|]. split.
+    + intros a' [<-|Hin]; auto.
+    + intros a' Hr. auto.
+Qed.
+
+Lemma mem_n_In k l : mem_n k l = true <-> In k l.
+Proof.
+  induction l as [|x t IH]; cbn; [split; [discriminate|tauto]|]. rewrite orb_true_iff, N.eqb_eq, IH. split; intros [H|H]; auto.
+Qed.
+Lemma dedup_into_incl l : forall acc x, In x acc \/ In x l -> In x (dedup_into acc l).
+Proof.
+  induction l as [|y t IH]; intros acc x [H|H]; cbn [dedup_into]; auto; try contradiction.
+  - destruct (mem_n y acc); apply IH; left; auto. apply in_or_app; auto.
+  - destruct (mem_n y acc) eqn:E.
+    + destruct H as [<-|H]; apply IH; [left; now apply mem_n_In|right; auto].
+    + destruct H as [<-|H]; apply IH; [left; apply in_or_app; right; left; reflexivity|right; auto].
+Qed.
+
+Lemma get_In_keys {A} a (l : list (N * A)) x : get a l = Some x -> In a (map fst l).
+Proof.
+  induction l as [|[k v] t IH]; cbn; [discriminate|]. destruct (a =? k) eqn:E; intros G.
+  - apply N.eqb_eq in E. auto.
+  - right; auto.
+Qed.
+
+(** a restart whose peer lists could be read re-establishes the invariant *)
+Lemma restart_inv v m cv : W v m -> cv_lists cv <> None -> Inv (snd (svc_init VM (boot VM (dk v)) cv)) m.
+Proof.
+  intros [W1 W2] Hl. unfold svc_init, traffic_init. destruct (cv_lists cv) as [l|]; [|congruence].
+  assert (Wb : W (boot VM (dk v)) m). { split; [exact W1|]. intros a t y G. discriminate. }
+  change (dk (boot VM (dk v))) with (dk v).
+  destruct (init_fold_W cv m (address_list (dk v) l) _ Wb) as ([F1 F2] & F3 & _). cbn zeta in *.
+  match type of F1 with forall a, get a (d_last_send (dk ?x)) = _ => remember x as v1 eqn:Ev1 end. clear Ev1.
+  assert (I1 : Inv v1 m).
+  { constructor; auto. intros a y My. apply F3. unfold address_list. apply dedup_into_incl. right.
+    rewrite <- W1 in My. apply in_or_app; right. apply in_or_app; right. apply in_or_app; left. eapply get_In_keys; eauto. }
+  destruct (cv_bal cv) as [b|]; [|exact I1].
+  cbn [alloc VM]. destruct (cv_paid cv); cbn [snd]; [unfold init_book|]; eapply inv_same_recs; eauto.
+Qed.
+
+Definition restart_lists_ok (o : op) : Prop := match o with ORestart cv => cv_lists cv <> None | _ => True end.
+
+Lemma step_inv_all v m o : Inv v m -> restart_lists_ok o -> threshold_pos o ->
+  let r := step VM false v o in emit_ok m (fst r) /\ Inv (snd r) (after_out m (fst r)).
+Proof.
+  intros I Hr Ht. destruct (is_restart o) eqn:E; [|apply step_inv; auto].
+  destruct o; try discriminate. cbn [step]. cbn in Hr.
+  pose proof (restart_inv v m cv (Inv_W _ _ I) Hr) as J.
+  destruct (svc_init VM (boot VM (dk v)) cv) as [e v']. split; [exact Logic.I|exact J].
+Qed.
+
+Lemma run_inv_all : forall h v m, Inv v m -> Forall restart_lists_ok h -> Forall threshold_pos h ->
+  emits_above m (fst (run VM false v h)).
+Proof.
+  induction h as [|o t IH]; intros v m I Hr Ht; cbn [run]; [exact Logic.I|].
+  inversion Hr; subst. inversion Ht; subst.
+  destruct (step_inv_all v m o I H1 H3) as [A B]. destruct (step VM false v o) as [r v1]. cbn [fst snd] in *.
+  specialize (IH v1 _ B H2 H4). destruct (run VM false v1 t) as [rs v2]. cbn [fst snd] in *. split; auto.
+Qed.
